@@ -24,6 +24,11 @@ MONTH_END_RANGES = ["30.11.2020 23:30 - 3:35", "31.12.2020 22:00 - 1:00", "31.03
 POD_RANGES = ["afternoon 12-2", "nachmittags 12-14 uhr", "abends 10-12", "abends bis 12", "tonight from 10 to 12", "tomorrow evening 10-12", "evening 12-1",
               "nachts 11-12", "at night 12 - 3", "morgens 11-12", "vormittags 9-12", "afternoon 1-12", "late evening 11 - 12", "am abend von 8 bis 12",
               "heute nachmittag 12-13 uhr", "friday night 10-12", "night 12:00 - 12:30", "last 11-12", "first 12-1"]
+# two dated times within one hour, one of them written without minutes (a minute compared with an unspecified minute raised
+# TypeError before fix 1998a2e); 'now' needs a reference time in that hour (the fixed list runs at 12:43)
+SAME_HOUR_PAIRS = ["10.3.2021 12:30 - 10.3.2021 12 o'clock", "now to 12 o'clock today", "jetzt bis heute 12 uhr", "today 12:30 - today 12 o'clock",
+                   "heute 12 uhr bis heute 12:45", "5.5.2020 8 o'clock until 5.5.2020 8:15", "tomorrow at 9 o'clock - tomorrow 9 o'clock",
+                   "am 3.4.2022 um 23:59 bis 3.4.2022 23 uhr", "now - now", "jetzt bis jetzt"]
 TRIVIAL = ["", " ", "   ", "#foo", "#foo #bar", "  #x  ", "#", "# #", "#1", "#foo-bar_baz", "gargelbabel", "hello world", "#tag only words here",
            "\t", "\n", ",;", "()", "-", "--", ".", "...", "#-", "a", "0", "00", "000", "0000", "00000"]
 INERT = ["zzz", "qqq", "lorem", "ipsum", "beers", "burgers", "xylophone", "buy", "gift", "dentist", "pizza"]
